@@ -7,7 +7,9 @@
 (*        host; win = the values of `signal` (in time order) in the cycles *)
 (*        from the first byte of the token to the first byte of the answer *)
 (*        (or to the end of the observation, if there was none); ack = the *)
-(*        host then sent an ACK handshake; resp = what the device put on   *)
+(*        host then sent an ACK handshake; hd = the host sent a data       *)
+(*        packet after the (OUT/SETUP) token; own = the endpoint drove its *)
+(*        transmit stream during the event; resp = what the device put on  *)
 (*        the bus ([kind |-> "none"] or [kind |-> "data", pid, payload,    *)
 (*        crc_ok]);                                                        *)
 (*   [e |-> "sof"]                                  start of frame.        *)
@@ -46,12 +48,16 @@ FailingPoll(r) ==
     ELSE IF pending = <<>> /\ Candidates(r) = {} THEN "value_not_sampled_at_request"
     ELSE "ok"
 
+\* own = this endpoint drove its transmit stream during the event.  After a token for another endpoint of the same
+\* device the *device* may well answer (resp), but not this endpoint.
 FailingOther(r) ==
-    IF r.pid \notin TokenPids \/ (r.ack /\ ~(r.pid = "IN" /\ r.addr # DevAddr)) THEN "env_token"
-    ELSE IF r.resp.kind # "none" THEN "unexpected_response"
+    IF r.pid \notin TokenPids \/ (r.ack /\ r.pid # "IN") \/ (r.hd /\ r.pid \notin {"OUT", "SETUP"}) THEN "env_token"
+    ELSE IF r.own THEN "unexpected_response"
+    ELSE IF r.addr # DevAddr /\ r.resp.kind # "none" THEN "unexpected_response"
     ELSE "ok"
 
-KfForeignAck(r) == r.ack /\ pending # <<>>
+\* the carve-out is limited to acknowledged transactions of other device *addresses* (not visible to the token detector)
+KfForeignAck(r) == r.ack /\ r.addr # DevAddr /\ pending # <<>>
 
 TInit == /\ tid \in 1..Len(Logs)
          /\ conf = Logs[tid].cfg
@@ -72,7 +78,7 @@ StepPoll(r) == LET f == FailingPoll(r) IN
 StepOther(r) == LET f == FailingOther(r) IN
     /\ status' = Tag(f)
     /\ kf' = (kf \/ KfForeignAck(r))
-    /\ IF f = "ok" THEN Other(r.pid, r.addr, r.ep, r.ack) ELSE UNCHANGED vars
+    /\ IF f = "ok" THEN Other(r.pid, r.addr, r.ep, r.ack, r.hd) ELSE UNCHANGED vars
 
 StepSof == /\ status' = "ok"
            /\ SofEvent
